@@ -2,6 +2,7 @@ package checks
 
 import (
 	"fmt"
+	"strconv"
 	"strings"
 
 	"github.com/ipld/go-ipld-prime/datamodel"
@@ -22,6 +23,27 @@ import (
 
 func init() {
 	core.Register(&core.Check{ID: "C14", Run: runC14, Replay: replayC07})
+}
+
+func pathSegStrings(p datamodel.Path) []string {
+	var out []string
+	for _, s := range p.Segments() {
+		out = append(out, s.String())
+	}
+	return out
+}
+
+// mkPathMixed builds the same path with segments in either internal form: a segment whose text is a canonical
+// non-negative integer is, at random, an int-form segment.  Both forms denote the same position.
+func mkPathMixed(segs []string, r *core.Rand) datamodel.Path {
+	ps := make([]datamodel.PathSegment, len(segs))
+	for i, s := range segs {
+		ps[i] = datamodel.PathSegmentOfString(s)
+		if n, err := strconv.ParseInt(s, 10, 64); err == nil && n >= 0 && strconv.FormatInt(n, 10) == s && r != nil && r.Bool() {
+			ps[i] = datamodel.PathSegmentOfInt(n)
+		}
+	}
+	return datamodel.NewPath(ps)
 }
 
 func mkPath(segs []string) datamodel.Path {
@@ -102,12 +124,16 @@ func runC14(c *core.Ctx) error {
 			return err
 		}
 		U := core.RunWalk(g, spec, core.WalkCfg{}, false)
+		if U.PathChanged != "" {
+			c.Fail("C14/kept-path-changed", core.Replay{Kind: "oracle", Case: "walk.adv " + g.StoreTokens() + " ROOT " + g.Root.Term() + " SEL " + spec.Term(), Impl: U.PathChanged,
+				Detail: "a Path is a value: the one reported at a visit must keep denoting the visited position after the walk has moved on"})
+		}
 		var paths [][]string
 		if U.Compile == "" && U.Outcome == "ok" && !specHasSubset(spec) {
 			for _, v := range U.Visits {
 				paths = append(paths, v.Path)
 				caseID := "path.get " + core.PathArg(v.Path) + " " + g.StoreTokens() + " ROOT " + g.Root.Term()
-				got, err := traversal.Progress{Cfg: c14Cfg(g)}.Get(root, mkPath(v.Path))
+				got, err := traversal.Progress{Cfg: c14Cfg(g)}.Get(root, mkPathMixed(v.Path, c.Rand))
 				if err != nil || termOf(got) != v.Node {
 					// the root position holding a link is visited as the link node itself and Get returns it as is
 					c.Fail("C14/visit-path-does-not-resolve", core.Replay{Kind: "oracle", Case: caseID, Impl: fmt.Sprint(termOfOrErr(got, err)), Expected: v.Node, Detail: "Get(root, visit path) differs from the visited node"})
@@ -162,7 +188,7 @@ func runC14(c *core.Ctx) error {
 						gerr = fmt.Errorf("panic %v", r)
 					}
 				}()
-				got, gerr = traversal.Progress{Cfg: c14Cfg(g)}.Get(root, mkPath(segs))
+				got, gerr = traversal.Progress{Cfg: c14Cfg(g)}.Get(root, mkPathMixed(segs, c.Rand))
 			}()
 			sw, serr := stepwise(g, root, segs)
 			if (gerr == nil) != (serr == nil) || (gerr == nil && termOf(got) != termOf(sw)) {
@@ -181,6 +207,60 @@ func runC14(c *core.Ctx) error {
 			}
 			c.Count(caseID, len(segs) >= 2)
 		}
+	}
+	// path values: every derived path (append, join, parent, truncate, pop, shift) is a new value; neither the base nor an
+	// earlier derivation changes when another one is derived from the same base (depths 0..10: slice growth boundaries)
+	for i := 0; i < c.Pick(1500, 60000); i++ {
+		var segs []string
+		for m := c.Rand.Intn(11); m > 0; m-- {
+			segs = append(segs, []string{"a", "b", "0", "7", "k1", "..", ".", "x y"}[c.Rand.Intn(8)])
+		}
+		base := mkPath(segs)
+		if c.Rand.Bool() && len(segs) > 0 {
+			// a base that is itself a derivation (spare capacity in its backing array, if any)
+			base = mkPath(segs[:len(segs)-1]).AppendSegmentString(segs[len(segs)-1])
+		}
+		want := func(xs []string) string { return core.PathArg(xs) }
+		got := func(p datamodel.Path) string { return core.PathArg(pathSegStrings(p)) }
+		type der struct {
+			what string
+			p    datamodel.Path
+			want string
+		}
+		var ders []der
+		for k := 0; k < 4; k++ {
+			x := []string{"p", "q", "3", "zz"}[k]
+			switch c.Rand.Intn(6) {
+			case 0, 1:
+				ders = append(ders, der{"AppendSegmentString(" + x + ")", base.AppendSegmentString(x), want(append(append([]string{}, segs...), x))})
+			case 2:
+				ders = append(ders, der{"AppendSegmentInt(" + fmt.Sprint(k) + ")", base.AppendSegmentInt(int64(k)), want(append(append([]string{}, segs...), fmt.Sprint(k)))})
+			case 3:
+				ders = append(ders, der{"Join", base.Join(mkPath([]string{x, "t"})), want(append(append([]string{}, segs...), x, "t"))})
+			case 4:
+				if len(segs) > 0 {
+					ders = append(ders, der{"Parent+Append", base.Parent().AppendSegmentString(x), want(append(append([]string{}, segs[:len(segs)-1]...), x))})
+				}
+			case 5:
+				if len(segs) > 0 {
+					t := c.Rand.Intn(len(segs))
+					ders = append(ders, der{"Truncate+Append", base.Truncate(t).AppendSegmentString(x), want(append(append([]string{}, segs[:t]...), x))})
+				}
+			}
+		}
+		ders = append(ders, der{"base", base, want(segs)})
+		caseID := "c14.pathvalue " + core.PathArg(segs)
+		for _, d := range ders {
+			caseID += " " + d.what
+		}
+		for _, d := range ders {
+			if g := got(d.p); g != d.want {
+				c.Fail("C14/path-value-changed", core.Replay{Kind: "oracle", Case: caseID, Impl: d.what + " reads " + g, Expected: d.want,
+					Detail: "a path derived from a base changed when a sibling was derived from the same base"})
+			}
+		}
+		c.Count(caseID, len(ders) >= 3)
+		c.Dist("path-value")
 	}
 	// path text round trip
 	var rtLines, rtImpl []string
